@@ -381,10 +381,10 @@ def compare(case, obs, exp, hang=None):
                         or not got.get("builder_has_error_code") or got.get("unknown_typed_ok") is not True:
                     must.append((["C16"], "error response malformed: %s" % json.dumps({k2: v for k2, v in got.items() if k2 != "bytes"})[:300]))
                 if want["verdict"] == 420:
-                    if dedup(got.get("unknown")) != dedup(want["unknown"]):
+                    # one entry per exposed offending attribute, in message order (Police() in StunMessage.tla; a repeated
+                    # unsupported type is listed as often as it occurs, which is what "in message order" is read to mean)
+                    if got.get("unknown") != want["unknown"]:
                         must.append((["C16"], "UNKNOWN-ATTRIBUTES lists %s, specification %s" % (got.get("unknown"), want["unknown"])))
-                    elif got.get("unknown") != want["unknown"]:
-                        asis.append("UNKNOWN-ATTRIBUTES duplicates: impl %s spec %s" % (got.get("unknown"), want["unknown"]))
                 elif got.get("unknown") is not None:
                     must.append((["C16"], "a 400 response carries UNKNOWN-ATTRIBUTES %s" % got.get("unknown")))
     must += compare_cuts(case, obs, exp, asis)
